@@ -44,7 +44,38 @@ CHECKS = {
         "generator recorded when it wrote the text, nest properly and be ordered.",
         "Models without own text (sugar heads, parts of dotted identifiers) and parts inside f-strings are checked for containment/order only.",
         "textgen", "2/C21"),
+    "C01": (
+        "Hypothesis-generated programs over a JSON IR (Engine A) differentially executed against a reference interpreter; series-parallel trace acceptance for effect order",
+        "Thousands (quick) to hundreds of thousands (thorough) of generated programs nest every statement-producing form in expression slots; "
+        "the compiled code's value, escaping exception and effect log are compared with an independent interpreter of the documented semantics.",
+        "Trusts vf/progs.py (reference interpreter) and the generator's discipline (unique names, no races between unordered siblings).",
+        "progs", "2/C01"),
+    "C02": (
+        "Hypothesis-sampled and (thorough) enumerated and/or forms over operand-shape vectors x truthiness assignments, differential against Python's own and/or in the reference interpreter; exact effect-log comparison",
+        "All arities 0..8, every operand shape, every context (value, setv, argument, if test, nested) are sampled; arity <= 4 is enumerated "
+        "exhaustively in the thorough tier; the function forms (and #* xs)/hy.pyops are checked on value lists.",
+        "Trusts the reference interpreter's and/or clause (Python's own operators).",
+        "progs", "2/C02"),
+    "C09": (
+        "fault injection: every dynamic effect point of generated try/with programs gets an injected exception (singles exhaustive, pairs sampled/exhaustive), differential against CPython's try/with in the reference interpreter",
+        "Each generated program is compiled once and re-run once per effect point and exception class (and per pair of points): exhaustive single-fault "
+        "enumeration per program, sampled over programs.",
+        "Trusts vf/progs.py, whose try/with clauses are Python's own statements; argument lists carry at most one effectful child.",
+        "progs", "2/C09"),
+    "C12": (
+        "Hypothesis-generated programs with look-alike user names; static validity predicate over all identifiers of the compiled AST + differential execution of all-arguments-lifted constructs against the reference interpreter",
+        "Every identifier the compiler emits that the program did not write must be hy or _hy_-prefixed; constructs whose every argument needs a "
+        "temporary are executed and compared, with sentinel variables read back.",
+        "Trusts hy.mangle for the program's own names (C32/C34) and vf/progs.py.",
+        "progs", "2/C12"),
+    "C14": (
+        "metamorphic/differential: the same compiled module executed from its AST and from hy2py's printed Python, on Hypothesis-generated programs with keyword/non-ASCII names and injected faults",
+        "For each generated program the hy2py text must compile and reproduce value, exact effect log and escaping exception of the AST execution.",
+        "CPython's compile/exec are the reference for both artefacts.",
+        "progs", "2/C14"),
 }
+
+LEVELS = {"C09": "fault_enumeration"}
 
 NOT_YET = "check not built yet in this session (planned in DESIGN.md section 2); not claimed"
 
@@ -64,7 +95,7 @@ def main():
                 "evidence_file": "evidence/%s.json" % pid,
                 "replay_cmd_template": "./check %s --replay {path}" % pid,
                 "engine": engine,
-                "level_claimed": {"category": "exploration", "text": text, "design_ref": "DESIGN.md section " + ref},
+                "level_claimed": {"category": LEVELS.get(pid, "exploration"), "text": text, "design_ref": "DESIGN.md section " + ref},
                 "level_note": note,
                 "technique": "property-based testing: " + tech,
             })
@@ -82,6 +113,8 @@ def main():
             "add_only": True,
         },
         "engines": [
+            {"name": "progs", "path": "vf/progs.py", "serves_properties": ["C01", "C02", "C09", "C12", "C13", "C14", "C17", "C39"],
+             "kind_free_text": "Engine A: JSON program IR, Hypothesis generator (vf/proggen.py), renderer to Hy, reference interpreter with series-parallel effect traces, fault-injecting harness"},
             {"name": "names", "path": "vf/props/c32.py", "serves_properties": ["C32", "C33"],
              "kind_free_text": "code-point enumeration and Hypothesis name strategy"},
             {"name": "textgen", "path": "vf/textgen.py", "serves_properties": ["C18", "C19", "C20", "C21", "C25", "C30"],
